@@ -316,7 +316,11 @@ impl<R: Read, TSpec> TagIterator<R, TSpec>
                 let path = <TSpec>::get_path_by_id(tag_id);
                 if path.iter().all(|p| matches!(p, PathPart::Id(_))) {
                     //We only know the current path if we read a tag that is non-global
-                    self.tag_stack = path.iter().map(|id| {
+                    //Masters that are already open (started while the path was still unknown) stay open: they are the innermost parents if the path ends with them
+                    let open_ids: Vec<PathPart> = self.tag_stack.iter().map(|t| PathPart::Id(t.tag.get_id())).collect();
+                    let implied = if path.ends_with(&open_ids) { &path[..(path.len() - open_ids.len())] } else { path };
+                    let mut open_tags = std::mem::take(&mut self.tag_stack);
+                    self.tag_stack = implied.iter().map(|id| {
                         match id {
                             PathPart::Id(id) => {
                                 ProcessingTag { 
@@ -329,6 +333,7 @@ impl<R: Read, TSpec> TagIterator<R, TSpec>
                             PathPart::Global(_) => unreachable!()
                         }
                     }).collect();
+                    self.tag_stack.append(&mut open_tags);
                     self.has_determined_doc_path = true;
                 }
             }
